@@ -1,3 +1,6 @@
+// value of a function tail that was dropped from the verified text (@droptail): arbitrary
+#[verifier::external_body]
+pub fn vf_dropped_tail<T>() -> (r: T) { unimplemented!() }
 // ===== TRUSTED SHIM: formatting / strings =====
 #[verifier::external_body]
 pub fn verif_fmt() -> (r: String) { unimplemented!() }
